@@ -63,6 +63,32 @@ class WithConstraint(Component):
     s.add_constraints(U(up_t) < U(up_u))
 
 
+class WithRdWr(Component):
+  """explicit read/write constraints: up_late reads s.t although it is ordered before the writer's readers"""
+  def construct(s):
+    s.in_ = InPort(32); s.out = OutPort(32); s.t = Wire(32); s.u = Wire(32); s.v = Wire(32)
+    @update
+    def up_t(): s.t @= s.in_ + 3
+    @update
+    def up_u(): s.u @= s.t ^ 0x0f0f
+    @update
+    def up_v(): s.v @= s.in_ + 5
+    @update
+    def up_o(): s.out @= s.u + s.v
+    s.add_constraints(WR(s.v) < U(up_u), U(up_v) < RD(s.t))
+
+
+class StructuralConstrained(Component):
+  """owns no update block itself, but constrains its children's blocks and signals"""
+  def construct(s):
+    s.in_ = InPort(32); s.out = OutPort(32); s.side = Wire(32)
+    s.a = Adder(); s.b = Plain(); s.c = Swapper()
+    s.a.in_ //= s.in_; s.b.in_ //= s.in_; s.c.in_ //= s.a.out; s.side //= s.b.out; s.out //= s.c.out
+    s.add_constraints(U(s.a.get_update_block('up_add')) < U(s.b.get_update_block('up_plain')),
+                      WR(s.side) < U(s.c.get_update_block('up_swap')),
+                      U(s.b.get_update_block('up_plain')) < RD(s.a.out))
+
+
 class Sink(Component):
   @method_port
   def recv(s, v): s.log.append(v)
@@ -89,7 +115,7 @@ class Wrapper(Component):
     s.inner.in_ //= s.in_; s.out //= s.inner.out
 
 
-KINDS = {'Plain': Plain, 'Swapper': Swapper, 'Adder': Adder, 'RegStage': RegStage, 'WithConst': WithConst, 'Nested': Nested, 'WithConstraint': WithConstraint, 'WithSink': WithSink}
+KINDS = {'Plain': Plain, 'Swapper': Swapper, 'Adder': Adder, 'RegStage': RegStage, 'WithConst': WithConst, 'Nested': Nested, 'WithConstraint': WithConstraint, 'WithSink': WithSink, 'WithRdWr': WithRdWr, 'StructuralConstrained': StructuralConstrained}
 
 
 class Top(Component):
@@ -117,6 +143,11 @@ HISTORIES = {
   'nested_then_plain': ([('s.c[1]', 'Nested', 'cls'), ('s.c[1]', 'Plain', 'cls')], ('Plain', 'Plain', 'Plain'), 'Plain'),
   'with_constraint':   ([('s.c[2]', 'WithConstraint', 'cls')], ('Plain', 'Plain', 'WithConstraint'), 'Plain'),
   'constraint_away':   ([('s.c[2]', 'WithConstraint', 'cls'), ('s.c[2]', 'Adder', 'cls')], ('Plain', 'Plain', 'Adder'), 'Plain'),
+  'rdwr_constraints':  ([('s.c[1]', 'WithRdWr', 'cls')], ('Plain', 'WithRdWr', 'Plain'), 'Plain'),
+  'rdwr_away':         ([('s.c[1]', 'WithRdWr', 'cls'), ('s.c[1]', 'Swapper', 'obj')], ('Plain', 'Swapper', 'Plain'), 'Plain'),
+  'rdwr_twice':        ([('s.c[0]', 'WithRdWr', 'cls'), ('s.c[0]', 'WithRdWr', 'cls'), ('s.w.inner', 'WithRdWr', 'cls'), ('s.w.inner', 'Adder', 'cls')], ('WithRdWr', 'Plain', 'Plain'), 'Adder'),
+  'structural_constraints': ([('s.c[1]', 'StructuralConstrained', 'cls')], ('Plain', 'StructuralConstrained', 'Plain'), 'Plain'),
+  'structural_away':   ([('s.c[1]', 'StructuralConstrained', 'cls'), ('s.c[1]', 'Adder', 'cls'), ('s.w.inner', 'StructuralConstrained', 'obj'), ('s.w.inner', 'Plain', 'cls')], ('Plain', 'Adder', 'Plain'), 'Plain'),
   'internal_method_net': ([('s.c[1]', 'WithSink', 'cls')], ('Plain', 'WithSink', 'Plain'), 'Plain'),
   'method_net_away':   ([('s.c[1]', 'WithSink', 'cls'), ('s.c[1]', 'Adder', 'cls')], ('Plain', 'Adder', 'Plain'), 'Plain'),
   'reg_everywhere':    ([('s.c[0]', 'RegStage', 'cls'), ('s.c[1]', 'RegStage', 'cls'), ('s.w.inner', 'RegStage', 'obj')], ('RegStage', 'RegStage', 'Plain'), 'RegStage'),
